@@ -31,3 +31,28 @@ Proof.
     cbn [filter]. unfold anti_keep at 1. rewrite Ekk. inversion Ho as [Ho']. rewrite <- Ho'.
     destruct (py_in k rkeys); reflexivity.
 Qed.
+
+(* hashlookupjoin's probe loop: exactly one output row per left row, in left order; each is the left row, unchanged, followed by
+   the value cells of THE row the lookupone dictionary holds for its key (the first right row with that key, see
+   C07_lookupone_keeps_first), or by one `missing` per right value field when the key is absent *)
+Theorem hashlookupjoin_loop_exact (lkind rvind : list Z) (missing : val) (rl : pdict val) (L out : list row) :
+  hashlookupjoin_loop lkind rvind missing rl L = (out, None) ->
+  Forall2 (fun lrow o => exists k, raw_getkey lkind lrow = Some k /\
+             o = lrow ++ match pd_get rl k with
+                         | Some (VSeq _ rrow) => rgetv rvind missing rrow
+                         | _ => map (fun _ => missing) rvind
+                         end) L out.
+Proof.
+  revert out; induction L as [|lrow t IH]; intros out; cbn [hashlookupjoin_loop].
+  - intros H; inversion H; constructor.
+  - destruct (raw_getkey lkind lrow) as [k|] eqn:Ek; [|discriminate].
+    destruct (hashlookupjoin_loop lkind rvind missing rl t) as [o e] eqn:Et. intros H; inversion H; subst; clear H.
+    constructor; [|apply IH; reflexivity]. exists k. split; [exact Ek|].
+    destruct (pd_get rl k) as [[| ? ? | ? | ? | ? | ? | ? | ? rrow]|]; reflexivity.
+Qed.
+
+Corollary hashlookupjoin_loop_count (lkind rvind : list Z) (missing : val) (rl : pdict val) (L out : list row) :
+  hashlookupjoin_loop lkind rvind missing rl L = (out, None) -> length out = length L.
+Proof.
+  intros H. apply hashlookupjoin_loop_exact in H. induction H; cbn; congruence.
+Qed.
